@@ -245,10 +245,36 @@ func vRunCase(t *testing.T, c vCase) (msg string) {
 				return "Encode(Decode(b)) != b"
 			}
 		}
+	case "scalar-decodehex":
+		// A: a string of hex digits (any length); accepted iff it is exactly 64 digits encoding a value < n
+		pre := vBig(c.B)
+		s := vScalarOf(t, pre)
+		err := s.DecodeHex(c.A)
+		raw, herr := hex.DecodeString(c.A)
+		ok := herr == nil && len(raw) == 32 && new(big.Int).SetBytes(raw).Cmp(vN) < 0
+		if ok != (err == nil) {
+			return "DecodeHex(" + c.A + "): accepted=" + itoa(b2iS(err == nil)) + ", expected " + itoa(b2iS(ok))
+		}
+		if ok && !bytes.Equal(s.Encode(), raw) {
+			return "DecodeHex(" + c.A + ") set a different value"
+		}
+		if !ok && herr == nil && len(raw) != 32 {
+			d := vScalarOf(t, pre)
+			if derr := d.Decode(raw); (derr == nil) != (err == nil) {
+				return "DecodeHex and Decode disagree on " + c.A
+			}
+		}
 	default:
 		return vRunCase2(t, c)
 	}
 	return ""
+}
+
+func b2iS(b bool) int {
+	if b {
+		return 1
+	}
+	return 0
 }
 
 func itoa(i int) string    { return big.NewInt(int64(i)).String() }
